@@ -362,3 +362,93 @@ func TestKF_DoubleZPopMaxReturnsSameMember(t *testing.T) {
 		return nil
 	})
 }
+
+func TestKF_SparseRangeInsideSegment(t *testing.T) {
+	db, dir := kfOpen(t, HintBPTSparseIdxMode, 300)
+	defer os.RemoveAll(dir)
+	// eight 60-byte records per key fill several 300-byte segments; the first segments get sealed
+	for i := 0; i < 12; i++ {
+		k := []byte{'k', byte('0' + i/10), byte('0' + i%10)}
+		if err := db.Update(func(tx *Tx) error { return tx.Put("b", k, []byte("0123456789"), Persistent) }); err != nil {
+			t.Fatal(err)
+		}
+	}
+	_ = db.View(func(tx *Tx) error {
+		// every key individually readable
+		for _, k := range []string{"k01", "k02"} {
+			if _, err := tx.Get("b", []byte(k)); err != nil {
+				t.Skipf("Get(%s) fails already: %v", k, err)
+			}
+		}
+		es, err := tx.RangeScan("b", []byte("k01"), []byte("k02"))
+		if err != nil || len(es) != 2 {
+			t.Errorf("REPRODUCED: RangeScan(k01,k02) = (%d entries, %v) although k01 and k02 are readable: a query range strictly inside the key range of a sealed segment is skipped", len(es), err)
+		}
+		return nil
+	})
+}
+
+func kfSparseMissingDir(t *testing.T, what string, f func(tx *Tx)) {
+	db, dir := kfOpen(t, HintBPTSparseIdxMode, 4096)
+	if err := db.Update(func(tx *Tx) error { return tx.Put("b", []byte("k"), []byte("v"), 0) }); err != nil {
+		t.Fatal(err)
+	}
+	os.RemoveAll(dir) // the segment can no longer be opened
+	defer func() {
+		if r := recover(); r != nil {
+			t.Errorf("REPRODUCED: %s in sparse mode panics when the segment cannot be opened: %v", what, r)
+		}
+	}()
+	tx, _ := db.Begin(false)
+	f(tx)
+	_ = tx.Rollback()
+}
+
+func TestKF_SparseGetMissingDir(t *testing.T) {
+	kfSparseMissingDir(t, "Get", func(tx *Tx) { _, _ = tx.Get("b", []byte("k")) })
+}
+
+func TestKF_SparsePrefixScanMissingDir(t *testing.T) {
+	kfSparseMissingDir(t, "PrefixScan", func(tx *Tx) { _, _, _ = tx.PrefixScan("b", []byte("k"), 0, 10) })
+}
+
+func TestKF_SparsePrefixSearchScanMissingDir(t *testing.T) {
+	kfSparseMissingDir(t, "PrefixSearchScan", func(tx *Tx) { _, _, _ = tx.PrefixSearchScan("b", []byte("k"), ".*", 0, 10) })
+}
+
+func TestKF_SparseBucketKeyCollision(t *testing.T) {
+	db, dir := kfOpen(t, HintBPTSparseIdxMode, 4096)
+	defer os.RemoveAll(dir)
+	if err := db.Update(func(tx *Tx) error { return tx.Put("a", []byte("bc"), []byte("value-of-a/bc"), Persistent) }); err != nil {
+		t.Fatal(err)
+	}
+	_ = db.View(func(tx *Tx) error {
+		e, err := tx.Get("ab", []byte("c"))
+		if err == nil && e != nil {
+			t.Errorf("REPRODUCED: Get(bucket ab, key c) returns %q, the value stored under bucket a, key bc: the composite key bucket++key is not injective", e.Value)
+		}
+		return nil
+	})
+}
+
+func TestKF_SparsePrefixScanNoLimitSkipsSealedSegments(t *testing.T) {
+	db, dir := kfOpen(t, HintBPTSparseIdxMode, 300)
+	defer os.RemoveAll(dir)
+	for i := 0; i < 12; i++ {
+		k := []byte{'k', byte('0' + i/10), byte('0' + i%10)}
+		if err := db.Update(func(tx *Tx) error { return tx.Put("b", k, []byte("0123456789"), Persistent) }); err != nil {
+			t.Fatal(err)
+		}
+	}
+	_ = db.View(func(tx *Tx) error {
+		limited, _, err1 := tx.PrefixScan("b", []byte("k"), 0, 100)
+		all, _, err2 := tx.PrefixScan("b", []byte("k"), 0, ScanNoLimit)
+		if err1 != nil {
+			t.Skipf("PrefixScan with a limit fails already: %v", err1)
+		}
+		if err2 != nil || len(all) != len(limited) {
+			t.Errorf("REPRODUCED: PrefixScan(k, 0, ScanNoLimit) returns %d entries (%v), PrefixScan(k, 0, 100) returns %d: without a limit the sealed segments are not scanned", len(all), err2, len(limited))
+		}
+		return nil
+	})
+}
